@@ -82,8 +82,8 @@ def strategy():
                 f2 |= 512
             mapq = draw(st.sampled_from([0, 20, 49, 50, 60, 60]))
             tags = {'SM': 'cell%d' % draw(st.integers(0, 2)), 'DS': site}
-            if draw(st.integers(0, 4)) == 0:
-                tags['mp'] = draw(st.sampled_from(['unique', 'multi']))
+            if draw(st.integers(0, 3)) == 0:
+                tags['mp'] = draw(st.sampled_from(['unique', 'multi', 'multi']))
             if draw(st.booleans()):
                 tags['DA'] = draw(st.sampled_from(['a', 'b']))
             p2 = min(L - rl, max(0, pos + draw(st.integers(-30, 30))))
@@ -100,7 +100,9 @@ def strategy():
                 'dedup': draw(st.sampled_from([True, True, False])), 'key_tags': draw(st.sampled_from([None, None, ['DA']])),
                 'pool': draw(st.sampled_from(['det', 'det', 'det', 'real'])), 'threads': draw(st.integers(1, 4)),
                 'order': draw(st.lists(st.integers(0, 1000), min_size=4, max_size=4)),
-                'default_kwargs': draw(st.sampled_from([False, False, True]))}
+                'default_kwargs': draw(st.sampled_from([False, False, True])),
+                # the documented extra argument of the counting jobs: also count reads whose mp tag says 'multi'
+                'ignore_mp': draw(st.sampled_from([None, None, None, True, False]))}
     return case()
 
 
@@ -114,7 +116,7 @@ def recount(case):
             continue
         if case['dedup'] and f & 1024:
             continue
-        if r['tags'].get('mp', 'unique') != 'unique':
+        if r['tags'].get('mp', 'unique') != 'unique' and not (case.get('ignore_mp') and not case['default_kwargs']):
             continue
         if case['min_mq'] is not None and r['mapq'] < case['min_mq']:
             continue
@@ -150,7 +152,7 @@ def eval_obtain(case):
             if case['pool'] == 'det':
                 DetPool.order_seed = case['order']
                 bc.multiprocessing.Pool = DetPool
-            kw = {} if case['default_kwargs'] else {'kwargs': {}}
+            kw = {} if case['default_kwargs'] else {'kwargs': ({} if case.get('ignore_mp') is None else {'ignore_mp': case['ignore_mp']})}
             try:
                 with contextlib.redirect_stdout(io.StringIO()):
                     cmds = list(bc.generate_commands(path, bin_size=case['bin'], bins_per_job=bpj, min_mq=case['min_mq'],
